@@ -40,6 +40,13 @@ func cmdNetDeliver(args []string) int {
 		}
 		bw.Flush()
 	}
+	for i := range sc.Events {
+		if err := r.RunEvents(&sc.Events[i]); err != nil {
+			fmt.Fprintln(os.Stderr, "event case", sc.Events[i].ID, ":", err)
+			return 2
+		}
+		bw.Flush()
+	}
 	b, _ := json.Marshal(map[string]any{"cases": r.Cases, "sends": r.Sends})
 	fmt.Println(string(b))
 	return 0
